@@ -43,3 +43,65 @@ pub(crate) fn c24_obligations() {
     // the compiled result is moved to / shared with other threads:
     sendable::<Result<Arc<crate::ir::IndexedQuery>, crate::frontend::error::FrontendError>>();
 }
+
+// ---- second clause, bounded: concurrent use == sequential use (cannot false-alarm on race-free code) ----
+#[cfg(all(test, verif_replay))]
+mod concurrent {
+    use crate::interpreter::execution::interpret_ir;
+    use crate::ir::{FieldValue, IndexedQuery};
+    use crate::numbers_interpreter::NumbersAdapter;
+    use crate::verif_vk as vk;
+    use std::collections::BTreeMap;
+    use std::sync::Arc;
+
+    type Rows = Vec<BTreeMap<Arc<str>, FieldValue>>;
+    fn run(iq: &Arc<IndexedQuery>, args: &BTreeMap<Arc<str>, FieldValue>) -> Rows {
+        interpret_ir(Arc::new(NumbersAdapter::new()), iq.clone(), Arc::new(args.clone())).expect("arguments accepted").collect()
+    }
+
+    pub(crate) fn grid() {
+        let adapter = NumbersAdapter::new();
+        let schema = adapter.schema();
+        let queries = [
+            r#"{ Number(min: 0, max: 20) { name @output @filter(op: "regex", value: ["$p"]) } }"#,
+            r#"{ Number(min: 0, max: 20) { name @output @filter(op: "not_regex", value: ["$p"]) value @output } }"#,
+            r#"{ Number(min: 0, max: 20) { name @output @filter(op: "has_prefix", value: ["$p"]) } }"#,
+            r#"{ Number(min: 0, max: 12) { value @output @filter(op: ">=", value: ["$n"]) multiple(max: 3) @fold @transform(op: "count") @filter(op: ">", value: ["$n"]) @output(name: "c") } }"#,
+        ];
+        let pats = ["^t", "^f", "^s", "^e", "n$", "e$", "^o", "ee"];
+        let mut n = 0u64;
+        for (qi, q) in queries.iter().enumerate() {
+            // compile concurrently from several threads sharing the schema: all results must be equal
+            let compiled: Vec<Arc<IndexedQuery>> = std::thread::scope(|s| {
+                let hs: Vec<_> = (0..6).map(|_| s.spawn(|| crate::frontend::parse(schema, q).expect("query compiles"))).collect();
+                hs.into_iter().map(|h| h.join().unwrap()).collect()
+            });
+            assert!(compiled.iter().all(|c| **c == *compiled[0]), "concurrent compilation gives different compiled queries");
+            let iq = &compiled[0];
+            let arg_sets: Vec<BTreeMap<Arc<str>, FieldValue>> = (0..8).map(|i| {
+                let mut m = BTreeMap::new();
+                if q.contains("$p") { m.insert(Arc::from("p"), FieldValue::String(Arc::from(if qi == 2 { &pats[i][1..] } else { pats[i] }))); }
+                if q.contains("$n") { m.insert(Arc::from("n"), FieldValue::Int64(i as i64 % 4)); }
+                m
+            }).collect();
+            let sequential: Vec<Rows> = arg_sets.iter().map(|a| run(iq, a)).collect();
+            for iteration in 0..40 {
+                vk::grid_case(format_args!("query {} iteration {}", qi, iteration));
+                let concurrent: Vec<Rows> = std::thread::scope(|s| {
+                    let hs: Vec<_> = arg_sets.iter().map(|a| s.spawn(move || run(iq, a))).collect();
+                    hs.into_iter().map(|h| h.join().unwrap()).collect()
+                });
+                assert!(concurrent == sequential, "executing a shared compiled query concurrently with different arguments gives results that differ from sequential execution");
+                n += 1;
+            }
+        }
+        vk::grid_done("c24_grid_concurrent_equals_sequential", n);
+    }
+}
+
+// @grid c24_grid_concurrent_equals_sequential tier=quick bound="4 queries (regex / not_regex / prefix / fold-count filters) x 8 threads with different arguments x 40 rounds, sharing one schema and one compiled query; 6 concurrent compilations per query"
+// @ob compiling from several threads yields equal compiled queries, and executing one shared compiled query from 8 threads at once yields, for each thread, exactly the rows of sequential execution
+pub(crate) fn c24_grid_concurrent_equals_sequential() {
+    #[cfg(all(test, verif_replay))]
+    concurrent::grid();
+}
